@@ -179,7 +179,7 @@ Definition pow10 (n : Z) : Z := 10 ^ n.
 (* a well-formed format: what the generic proofs use; both DEC and PDEC satisfy it *)
 Definition fmt_ok (f : fmt) : Prop :=
   0 < scale f /\ 1 < fbits f /\ fbits f < wbits f /\ 10 ^ scale f < 2 ^ (wbits f - fbits f)
-  /\ 10 ^ scale f < 2 ^ (fbits f - 1)
+  /\ 2 * 10 ^ scale f < 2 ^ (fbits f - 1)
   /\ match cbrt_bits f with Some c => fbits f < c /\ 2 ^ (fbits f - 1) * (10 ^ scale f) ^ 2 < 2 ^ (c - 1) | None => True end.
 
 (* ---------------------------------------------------------------------------------------------- *)
